@@ -18,7 +18,9 @@ CLAIMED = {
               "postcondition (sizes, interior unchanged, halo cell = documented source cell with partner/sign, open "
               "edges = boundary rule) written from the property statement. Link shapes of the generic face, input "
               "kind, rules and extra-dimension layout are enumerated (quick: all 8 link kinds x 3 input kinds one "
-              "slot at a time + multi-slot samples; thorough: all 625 slot shapes x 3 input kinds)."),
+              "slot at a time + systematic two-slot shapes + samples; thorough: all 625 slot shapes x 3 input kinds). Plus a BOUNDED native part "
+              "(never counted as proved): whole reciprocal tables - periodic rings of 1-3 faces, random tables over 2-5 faces, listed in shuffled "
+              "order - on the real constructor / xarray / pad, every non-corner cell of every face against the same specification."),
         design_ref="DESIGN.md 2.1, 2.4, 7/C05",
         note=COMMON_NOTE + "Generic-face rule justified by a syntactic loop-independence check run on every check. "
              "Corner cells excluded (C12). Structural enumeration of link shapes is sampled in the quick tier.",
@@ -47,7 +49,8 @@ CLAIMED = {
               "inputs with out-of-range neighbours from the rule in force; multi-axis = composition in the given order; to=None "
               "= documented default shift. Cell counts, extra-dimension sizes, data and fill values are universally quantified; "
               "operator x shift x rule (all 96) and spellings/layouts are enumerated. Plus per-function contracts of the 4 stencil "
-              "helpers and the 32 decorated ufuncs (signature, body, boundary_width re-derived from axis geometry)."),
+              "helpers and the 32 decorated ufuncs (signature, body, boundary_width re-derived from axis geometry); the request under proof also "
+              "after other requests on the same Grid object; the input array is unchanged (no write through a shared buffer)."),
         design_ref="DESIGN.md 7/C01",
         note=COMMON_NOTE + "Callees are inlined into the top-level proof (stronger than modular use of their contracts); the "
              "signature text matching runs concretely on the enumerated axis names (its contract is C15/C13).",
@@ -76,7 +79,8 @@ CLAIMED = {
               "receives each input with its signature axes last in signature order, each extended by exactly boundary_width with "
               "the rule / fill value in force (all sizes, data, fill values symbolic), and the outputs carry the dims of the "
               "bound real axes at the output positions with the values the function returned (padded afterwards when "
-              "pad_before_func=False)."),
+              "pad_before_func=False); dummy names that are also names of real axes bound to OTHER real axes; every signature axis of every input "
+              "moved to another position is refused; the dask option bound at definition / given at call with lazy inputs."),
         design_ref="DESIGN.md 7/C11",
         note=COMMON_NOTE + "Assumed xarray.apply_ufunc contract (core dims last in listed order, broadcast dims first). "
              "Signature catalogue is an enumeration, not all signatures.",
@@ -90,7 +94,9 @@ CLAIMED = {
               "dictionary / list / array argument, the dataset and the Grid's settings are unchanged at every exit, normal or "
               "exceptional, on every path and for all sizes and data. History-independence: by induction over the call sequence, and "
               "directly - every catalogued call is re-executed after each other call / pair of calls on the same Grid and proved to "
-              "return the same dims, sizes, coordinates and values (catches caches and other hidden state)."),
+              "return the same dims, sizes, coordinates and values (catches caches and other hidden state): 13 near-identical requests "
+              "(differing in one respect) in all ordered pairs, metric operations on partially registered grids. In-place arithmetic "
+              "and writes through shared data buffers (shallow copies, slices, numpy views handed to ufuncs) are tracked as mutations."),
         design_ref="DESIGN.md 7/C18",
         note=COMMON_NOTE + "Assumes xarray/numpy calls mutate their inputs only through the tracked setters (name, attrs, item "
              "assignment). The catalogue of operations is an enumeration; sequences are covered by the inductive argument, not enumerated.",
@@ -103,7 +109,8 @@ CLAIMED = {
               "dimension coordinates and 0-D/1-D/N-D auxiliary coordinates: the new dimension carries exactly the dataset's coordinate "
               "of the target position (values and attrs token), untouched dimensions keep theirs, no coordinate on the abandoned "
               "dimension survives, other dataset coordinates are attached iff they fit and keep_coords, nothing else is attached, the "
-              "name is kept, and the values satisfy the same specification with and without input labels."),
+              "name is kept, and the values satisfy the same specification with and without input labels; calls over two axes (both orders, "
+              "padded and unpadded steps mixed) so that nothing leaks between the chained steps."),
         design_ref="DESIGN.md 7/C19",
         note=COMMON_NOTE + "Coordinates are abstracted to content tokens; the coordinate-propagation clause of apply_ufunc is assumed.",
         technique="contract-based deductive verification: symbolic execution of the real functions over a coordinate-token model",
@@ -114,7 +121,8 @@ CLAIMED = {
               "frozenset order, interp_like -> interp re-executed symbolically): for every enumerated registry over 1-3 axes, array "
               "position and request order, the result is an admissible choice per the statement (registered for exactly the axes "
               "at the array's position, else one of them interpolated with extend + warning; otherwise a product over a fully "
-              "registered partition with largest first block, factors at position or interpolated), KeyError iff none, result "
+              "registered partition with largest first block, EACH block's factor being the variable at the array's position if the block has one, "
+              "else one of its variables interpolated), KeyError iff none, result "
               "broadcasts against the array; metric values/sizes symbolic and non-uniform. Plus integrate = sum(data*metric) in "
               "any axis order, average = sum(data*w)/sum(w), derivative = diff/metric at the result position, metric_weighted "
               "op = op(data*m)/m' (single and per-axis mapping), average(field constant along the averaged dims) = that constant for any "
@@ -130,7 +138,8 @@ CLAIMED = {
               "(axes set, dims set) -> variable: for EVERY well-formed pre-state over the pool and every call (1-3 variables at "
               "pairwise different positions, overwrite T/F, key as tuple or str) the post view equals the one-at-a-time fold from "
               "the statement, refusal (ValueError) iff an occupied slot without overwrite, well-formedness preserved, other keys "
-              "and the argument list untouched; exhaustive over shapes (values play no role), history property by induction."),
+              "and the argument list untouched, the entries of a key in the order of the one-at-a-time registration; positions are sets of "
+              "dimensions (two-dimensional variables in both dimension orders); exhaustive over shapes (values play no role), history property by induction."),
         design_ref="DESIGN.md 7/C16",
         note="Finite, exhaustive enumeration of abstract pre-states and calls over a fixed pool (3 positions on X, 2 two-dimensional "
              "variables); obligations are decided by executing the real function on each shape. Trusted: dataset model, CPython.",
@@ -156,7 +165,9 @@ CLAIMED = {
               "grid lacks, data lacking/having two dims of the axis, shift to the same / an absent position / face to face, unknown "
               "position or boundary word per call and at construction, non-numeric fill value, periodic-axis transform, "
               "non-monotonic or repeated conservative bins, conservative without outer, ufunc inputs on wrong positions / in wrong "
-              "number) the call raises on EVERY path for all sizes and data, while the unedited call returns normally."),
+              "number, incl. two-axis arguments partly mis-positioned) the call raises on EVERY path for all sizes and data, while the unedited call "
+              "returns normally; each case is additionally run once on the real libraries (BOUNDED: one concrete size), because a library model "
+              "stricter than the library would hide an accepted request."),
         design_ref="DESIGN.md 7/C20",
         note=COMMON_NOTE + "Catalogue of calls and edits is an enumeration. Transform kernels are stubbed by uninterpreted recorders "
              "(their contracts are C07/C08). A per-call boundary word never used because all widths are zero is not required to raise.",
@@ -172,7 +183,9 @@ CLAIMED = {
               "contribution. Wrapper: interp_1d_conservative raises iff bins are not strictly monotonic, hands the kernel the "
               "edges in increasing order and reverses the result along the BIN axis for decreasing bins (any number of columns). "
               "xarray level: transform(method='conservative') passes data / target_data columns (interpolated to the bounds with "
-              "extend when given on centres) with the axis as core dim, names the new dimension, attaches bin centres."),
+              "extend when given on centres) with the axis as core dim, names the new dimension, attaches bin centres. BOUNDED native parts "
+              "(never counted as proved): concrete columns against the statement's overlap formula (both bin orders, thin / homogeneous cells, "
+              "values on edges) and real-dask runs chunked over non-axis dimensions (no computation while building, same result)."),
         design_ref="DESIGN.md 2.2, 7/C07",
         note=COMMON_NOTE + "Assumed: guvectorize column independence; accumulate-loop rule + exchange of finite sums; target_data "
              "and bins finite; floats as reals. The design's ghost-sum loop invariants were replaced by the equivalent "
@@ -188,7 +201,8 @@ CLAIMED = {
               "precondition (increasing xp) is an obligation of the kernel. interp_1d_linear: log = same call on logarithms. "
               "transform(method=linear|log): data/target_data columns and levels (per column for an N-D target with target_dim) "
               "reach the kernel with the axis last, flags forwarded, new dimension named after target / target_data / "
-              "TRANSFORMED_DIMENSION, result named input+suffix."),
+              "TRANSFORMED_DIMENSION, result named input+suffix (all four mask_edges x bypass_checks combinations). BOUNDED native parts: blocks "
+              "of columns with mixed directions against numpy's interpolant; real-dask runs chunked over non-axis dimensions."),
         design_ref="DESIGN.md 7/C08",
         note=COMMON_NOTE + "Assumed: np.interp / nanmax / nanmin / log contracts; guvectorize column independence; theta finite "
              "and strictly monotonic (the statement's precondition).",
@@ -220,7 +234,8 @@ CLAIMED = {
               "for all sizes/widths/data, the same values INCLUDING halo corner cells; likewise Grid.axes order of COMODO/SGRID "
               "autoparsed grids, equivalent() of signatures (1500 pairs) and the metric product get_metric chooses for three axes "
               "(set/frozenset of the grid namespace demonic as well). "
-              "The inventory of set-creating sites is re-read from the AST on every run."),
+              "The inventory of set-creating sites is re-read from the AST on every run. BOUNDED native part: the same table and boundary_width "
+              "listed in different orders (faces, axes, keys) on the real code give identical arrays."),
         design_ref="DESIGN.md 7/C12",
         note=COMMON_NOTE + "Assumes hash randomisation reaches results only through iteration of set/frozenset of str created "
              "in xgcm's Python code. Structures are enumerated (link shapes, registries, datasets).",
@@ -291,7 +306,7 @@ CLAIMED = {
               "pattern (same number of chunks, first/last grow by the widths, sums to the padded length; sizes and widths symbolic, "
               "1-5 chunks), map_overlap called with depth = {numpy axis of the operated dimension after moving core dims last: "
               "boundary width}, boundary='none', trim=False and the unpadded chunks on the correctly padded and re-chunked array, "
-              "refusal (NotImplementedError) iff inner/outer or several outputs, no eager evaluation on any path of 14 operations (scalar/vector, simple/face-connected), lazy inputs "
+              "refusal (NotImplementedError) iff inner/outer or several outputs, no eager evaluation on any path of 19 operations (scalar/vector, simple/face-connected incl. axis-swapping links, several axes with per-axis chunking), lazy inputs "
               "accepted wherever in-memory inputs are with the same dims/coords/sizes/values. The scheduler clause is NOT decidable "
               "by contracts on xgcm; a native run with the real dask (6 chunk layouts x 9 operations x 2 schedulers, compute "
               "counting) is a BOUNDED stand-in."),
